@@ -15,7 +15,7 @@ RULE = ("E1: every labelled DAG up to the node bound as ground truth x every col
         "reversible edge, or PDAGs with >=1 undirected edge")
 BOUNDS = {"quick": "PC: all DAGs n<=4 x all column orders (n=4: the 12 even permutations) x 3 variants x callable oracle; independence_match on n<=4 with 3 relabelings; "
                    "skeleton_to_pdag: all sepset choices n<=4 and all 29281 DAGs on 5 nodes (minimal sepsets, one node order); complete PC on the 302 classes of 5-node DAGs x 2 column orders x 3 variants; to_dag: all 4^6 PDAG codes on 4 nodes (and n<=3)",
-          "thorough": "adds all 29281 DAGs on 5 nodes x 6 column orders x {orig, stable}; orientation phase on all 32768 order-respecting 6-node DAGs x 4 node presentations"}
+          "thorough": "adds all 29281 DAGs on 5 nodes x 6 column orders x {orig, stable}; orientation phase on all 32768 order-respecting 6-node DAGs x 4 node presentations; to_dag on all 4^10 five-node PDAG codes"}
 EXHAUSTIVE = {"quick": True, "thorough": True}
 ASSUMPTIONS = ["max_cond_vars in {n, maximum degree of the true skeleton} (the property requires >= max degree)", "independence_match needs every variable to occur in some statement (PC reads the variable set from the list)"]
 
@@ -69,6 +69,9 @@ def groups(tier, seed):
         # 6-node DAG in at least one labelling) x 4 node presentations
         for i in range(0, 1 << 15, 128):
             out.append({"part": "s2p6", "lo": i, "hi": i + 128})
+        # PDAG.to_dag on every one of the 4^10 five-node PDAG codes
+        for i in range(0, 4 ** 10, 4096):
+            out.append({"part": "todag", "n": 5, "lo": i, "hi": i + 4096})
     else:
         # the complete algorithm (skeleton phase included) on the 302 isomorphism classes of 5-node DAGs, 2 column orders, 3 variants
         iso5 = iso_classes(5)
@@ -430,7 +433,16 @@ def _todag(st, n, code):
     directed, undirected = _decode(n, code)
     skel = {frozenset(e) for e in directed} | {frozenset(e) for e in undirected}
     vs = _pdag_vstructs(n, directed, undirected)
-    ext = [e for e in all_dags(n) if G(n, e).skeleton() == skel and set(directed) <= set(e) and G(n, e).vstructs() == vs]
+    if n <= 4:
+        ext = [e for e in all_dags(n) if G(n, e).skeleton() == skel and set(directed) <= set(e) and G(n, e).vstructs() == vs]
+    else:
+        # the same set, enumerated through the orientations of the undirected edges
+        ext = []
+        if is_acyclic(n, sorted(directed)) and len(skel) == len(directed) + len(undirected):
+            for bits in product((0, 1), repeat=len(undirected)):
+                e = tuple(sorted(list(directed) + [(a, b) if o == 0 else (b, a) for (a, b), o in zip(undirected, bits)]))
+                if is_acyclic(n, e) and G(n, e).vstructs() == vs:
+                    ext.append(e)
     if not ext:
         st.bump("pdag-not-extendable")
         return
